@@ -86,8 +86,10 @@ Fixpoint flat (t : rt) : flat_text :=
 (* ------------------------------------------------------------------------------ *)
 (* _typeinfo: BaseText 287-300 -> (None, ()) [Symbol], String 785-786,
    BaseMultipartText 579-588 -> (type(self), self.info); info is (name,) for Tag,
-   (url,) for HRef -- `external` is NOT part of it -- and () otherwise *)
-Inductive tinfo := TINone | TIStr | TIText | TITag (n : str) | TIHRef (u : str) | TIProt.
+   (url,) for HRef and () otherwise; HRef._typeinfo (after fix 8ee055e) returns the
+   factory HRef._external instead of the class when the link is external, so `external`
+   is part of the type information *)
+Inductive tinfo := TINone | TIStr | TIText | TITag (n : str) | TIHRef (u : str) (e : bool) | TIProt.
 
 Definition typeinfo (t : rt) : tinfo :=
   match t with
@@ -95,7 +97,7 @@ Definition typeinfo (t : rt) : tinfo :=
   | RSym _ => TINone
   | RText _ => TIText
   | RTag n _ => TITag n
-  | RHRef u _ _ => TIHRef u
+  | RHRef u e _ => TIHRef u e
   | RProt _ => TIProt
   end.
 
@@ -103,7 +105,7 @@ Definition tinfo_eqb (a b : tinfo) : bool :=
   match a, b with
   | TINone, TINone | TIStr, TIStr | TIText, TIText | TIProt, TIProt => true
   | TITag n, TITag m => str_eqb n m
-  | TIHRef u, TIHRef w => str_eqb u w
+  | TIHRef u e, TIHRef w x => str_eqb u w && Bool.eqb e x
   | _, _ => false
   end.
 
@@ -145,8 +147,8 @@ Definition str_val (t : rt) : str := match t with RStr s => s | _ => [] end.
    similar neighbours, store.  _merge_similar 604-623: a group of more than one part of
    the same class-with-info is rebuilt as cls(info..., all their parts...) -- for String
    that is the concatenation (String.__init__ 715-717), for Tag / HRef / Protected /
-   Text a recursive construction; HRef is rebuilt WITHOUT `external` (it defaults to
-   False, 887).  Symbols (cls None) and singleton groups are kept as they are.
+   Text a recursive construction; an external HRef is rebuilt through HRef._external,
+   so it stays external.  Symbols (cls None) and singleton groups are kept as they are.
    Fuel: the recursion goes through the parts of the parts. *)
 Definition merge_group (rec : kind -> list rt -> option rt) (g : list rt) : option (list rt) :=
   match g with
@@ -158,7 +160,7 @@ Definition merge_group (rec : kind -> list rt -> option rt) (g : list rt) : opti
     | TIStr => Some [RStr (flat_map str_val (flat_map parts_of g))]
     | TIText => option_map (fun t => [t]) (rec KText (flat_map parts_of g))
     | TITag n => option_map (fun t => [t]) (rec (KTag n) (flat_map parts_of g))
-    | TIHRef u => option_map (fun t => [t]) (rec (KHRef u false) (flat_map parts_of g))
+    | TIHRef u e => option_map (fun t => [t]) (rec (KHRef u e) (flat_map parts_of g))
     | TIProt => option_map (fun t => [t]) (rec KProt (flat_map parts_of g))
     end
   end.
@@ -181,11 +183,11 @@ Fixpoint mk (fuel : nat) (k : kind) (raw : list rt) : option rt :=
 (* the constructor with fuel that is always sufficient (Proofs: mk_fuel_enough) *)
 Definition mkc (k : kind) (raw : list rt) : res rt := of_opt (mk (S (S (ldepth raw))) k raw).
 
-(* _create_similar 590-602: cls(info..., parts...) -- an HRef loses `external` here too *)
+(* _create_similar 590-602: cls(info..., parts...), cls from _typeinfo (HRef._external for an external link) *)
 Definition kind_of (t : rt) : kind :=
   match t with
   | RTag n _ => KTag n
-  | RHRef u _ _ => KHRef u false
+  | RHRef u e _ => KHRef u e
   | RProt _ => KProt
   | _ => KText
   end.
@@ -350,15 +352,15 @@ Fixpoint risalpha (t : rt) : bool :=
     negb (Nat.eqb (rlen t) 0) && forallb risalpha qs
   end.
 
-(* __eq__: String 724-729, Symbol 966-967, BaseMultipartText 344-355 (same class and
-   info -- `external` is not compared -- and equal part lists) *)
+(* __eq__: String 724-729, Symbol 966-967, BaseMultipartText 344-355 (same _typeinfo -- for HRef that
+   includes `external` -- and equal part lists) *)
 Fixpoint rt_eqb (a b : rt) {struct a} : bool :=
   match a, b with
   | RStr s, RStr t => str_eqb s t
   | RSym n, RSym m => str_eqb n m
   | RText ps, RText qs => list_eqb rt_eqb ps qs
   | RTag n ps, RTag m qs => str_eqb n m && list_eqb rt_eqb ps qs
-  | RHRef u _ ps, RHRef w _ qs => str_eqb u w && list_eqb rt_eqb ps qs
+  | RHRef u e ps, RHRef w x qs => str_eqb u w && Bool.eqb e x && list_eqb rt_eqb ps qs
   | RProt ps, RProt qs => list_eqb rt_eqb ps qs
   | _, _ => false
   end.
